@@ -10,14 +10,11 @@
 // Datagram images are written little-endian by the harness (field order of RTPS 2.x clause 9.4);
 // that the real encoder produces exactly these layouts is C08's subject.
 //
-// Known findings kept as `__known` harnesses (trigger assumed, expected to fail):
-//   KF-C06-1  an INFO_REPLY submessage reaches `todo!()` in MessageReceiver::next
-//   KF-C06-2  GAP: the loop `gap_start..gap_list.base()` runs an attacker-chosen number of times
-//   KF-C06-3  DATA_FRAG with fragment_size 0 from a matched writer: division by zero
-//   KF-C06-4  SequenceNumberSet::set(): `base + delta` overflows for a base near i64::MAX
-// (KF-C07-1/2/3 are datagram-reachable panics as well; their harnesses carry props=C07,C06.)
+// Four defects found by these harnesses (INFO_REPLY reaching todo!(), the GAP range loop running an
+// attacker-chosen number of times, DATA_FRAG with fragmentSize 0 dividing by zero, SequenceNumberSet
+// members overflowing i64) and three found under C07 have been repaired in /repo; the former trigger
+// scenarios are now ordinary obligations asserting the repaired behaviour.
 use alloc::vec::Vec;
-use core::sync::atomic::{AtomicUsize, Ordering};
 
 use super::support_participant as sp;
 
@@ -25,10 +22,11 @@ use crate::infrastructure::time::Time;
 use crate::rtps::message_receiver::MessageReceiver;
 use crate::rtps::writer_proxy::RtpsWriterProxy;
 use crate::rtps_messages::overall_structure::{Endianness, RtpsMessageRead, RtpsSubmessageReadKind, TryReadFromBytes};
+use crate::rtps_messages::overall_structure::SubmessageHeaderRead;
 use crate::rtps_messages::submessage_elements::{ParameterList, SequenceNumberSet, SerializedDataFragment};
 use crate::rtps_messages::submessages::data_frag::DataFragSubmessage;
 use crate::transport::types::{
-    DurabilityKind, EntityId, Guid, GuidPrefix, ReliabilityKind, SequenceNumber, WriterProxy, ENTITYID_UNKNOWN,
+    DurabilityKind, EntityId, Guid, GuidPrefix, ReliabilityKind, WriterProxy, ENTITYID_UNKNOWN,
 };
 
 const W_PREFIX: GuidPrefix = [0x41; 12];
@@ -86,154 +84,76 @@ fn put_sn(b: &mut [u8], at: usize, sn: i64) {
 
 // ------------------------------------------------------------------------------------------
 // 1. dispatcher
+//
+// Datagram images are local arrays of at most 60 bytes whose framing bytes are concrete, and no
+// submessage has length 0: measured, with a 64-byte array or a zero-length submessage (the
+// `submessage_length == 0 && matches!(Data | DataFrag)` special case) CBMC no longer sees the next
+// submessage id as a constant and explores all twelve decoders at every position (> 900 s).
 // ------------------------------------------------------------------------------------------
 
-// @check props=C06 tier=quick known=KF-C06-1
-// @desc KNOWN DEFECT: a 28-byte datagram (RTPS header + INFO_REPLY submessage with an empty unicast locator list) is accepted by the real parser and the real MessageReceiver::next reaches `InfoReply(_) => todo!()`; DcpsDomainParticipant::handle_data calls exactly this pair (communication_methods.rs:406-409) for every received datagram, so the worker panics
-// @bounds datagram: any guid prefix, INFO_REPLY (id 0x0f), flags E, numLocators 0; unwind 30
-// @assume trigger: the datagram contains a well-formed INFO_REPLY submessage
+/// [INFO_REPLY (numLocators 0), HEARTBEAT_FRAG] from `prefix`: 56 bytes.
+fn info_reply_datagram(prefix: &GuidPrefix, sn: i64, last_frag: u32, count: i32) -> [u8; 56] {
+    let mut b = [0u8; 56];
+    put_header(&mut b, prefix);
+    put_sub(&mut b, 20, 0x0f, 1, 4); // INFO_REPLY, multicast flag clear
+    put4(&mut b, 24, 0u32.to_le_bytes()); // numLocators 0
+    put_sub(&mut b, 28, 0x13, 1, 24); // HEARTBEAT_FRAG
+    put4(&mut b, 32, kani::any());
+    put4(&mut b, 36, kani::any());
+    put_sn(&mut b, 40, sn);
+    put4(&mut b, 48, last_frag.to_le_bytes());
+    put4(&mut b, 52, count.to_le_bytes());
+    b
+}
+
+// @check props=C06 tier=quick
+// @desc a datagram [INFO_REPLY, HEARTBEAT_FRAG] is parsed by the real parser and iterated by the real MessageReceiver without panic (formerly `InfoReply(_) => todo!()`, repaired in /repo): the INFO_REPLY is skipped and the following HEARTBEAT_FRAG is still dispatched with its wire values
+// @bounds 56-byte datagram: any guid prefix, INFO_REPLY with an empty unicast list, HEARTBEAT_FRAG with symbolic ids / writerSN / lastFragmentNum / count; unwind 14
 // @enc rtps_messages::overall_structure::RtpsMessageRead::try_from
 // @enc rtps::message_receiver::MessageReceiver::next
 #[kani::proof]
-#[kani::unwind(30)]
-fn c06_info_reply_reaches_todo__known() {
+#[kani::unwind(14)]
+fn c06_info_reply_ignored() {
     let prefix: GuidPrefix = kani::any();
-    let mut b = [0u8; 28];
-    put_header(&mut b, &prefix);
-    put_sub(&mut b, 20, 0x0f, 1, 4);
-    if let Ok(m) = RtpsMessageRead::try_from(&b[..]) {
-        assert!(m.submessages().len() == 1, "C06: harness image");
-        let mut mr = MessageReceiver::new(&m);
-        let _ = mr.next();
-        core::mem::forget(m);
-    }
-}
-
-// @check props=C06 tier=thorough timeout=1800 known=KF-C06-1
-// @desc KNOWN DEFECT KF-C06-1 at participant level: the same 28-byte datagram handed to DcpsDomainParticipant::handle_data of a freshly constructed participant panics (not decided in the quick tier: > 900 s on the loaded machine)
-// @bounds as c06_info_reply_reaches_todo__known; real participant; unwind 30
-// @assume trigger: the datagram contains a well-formed INFO_REPLY submessage; critical_section::acquire/release stubbed
-// @enc dcps::dcps_domain_participant::communication_methods::DcpsDomainParticipant::handle_data
-#[kani::proof]
-#[kani::unwind(30)]
-#[kani::stub(critical_section::acquire, super::support_cs::cs_acquire)]
-#[kani::stub(critical_section::release, super::support_cs::cs_release)]
-fn c06_info_reply_handle_data__known() {
-    let prefix: GuidPrefix = kani::any();
-    let mut b = [0u8; 28];
-    put_header(&mut b, &prefix);
-    put_sub(&mut b, 20, 0x0f, 1, 4);
-    let cap = sp::Capture::new();
-    let mut p = sp::participant(&cap, 0);
-    p.handle_data(&b[..], &rt());
-    core::mem::forget(p);
-}
-
-// @check props=C06 tier=thorough timeout=1800
-// @desc (NOT decided so far: > 900 s; CBMC explores every decoder although the framing bytes are concrete) dispatcher on well-formed messages without INFO_REPLY: [INFO_TS(invalidate), HEARTBEAT] and [INFO_TS, INFO_SRC, PAD] with symbolic timestamp, version, vendor, prefixes, ids, sequence numbers and count are parsed by the real parser and iterated by the real MessageReceiver until exhaustion: no panic; the first yields exactly the HEARTBEAT with no timestamp and the header's prefix as source, the second yields nothing and leaves the INFO_SRC prefix and the INFO_TS timestamp in the receiver
-// @bounds datagrams of 56 and 60 bytes (local arrays of up to 60 bytes keep their concrete framing bytes in CBMC; 64 bytes did not finish in 900 s), all value fields symbolic over their full domain; submessage ids / flags / lengths concrete; unwind 30
-// @assume NOT trigger KF-C06-1 (no INFO_REPLY submessage)
-// @enc rtps_messages::overall_structure::RtpsMessageRead::try_from
-// @enc rtps::message_receiver::MessageReceiver::next
-#[kani::proof]
-#[kani::unwind(30)]
-fn c06_receiver_dispatch__rest() {
-    let prefix: GuidPrefix = kani::any();
-    let (first_sn, last_sn, count): (i64, i64, i32) = (kani::any(), kani::any(), kani::any());
-    {
-        let mut b = [0u8; 56];
-        b[0] = b'R';
-        b[1] = b'T';
-        b[2] = b'P';
-        b[3] = b'S';
-        b[4] = 2;
-        b[5] = 4;
-        b[6] = 1;
-        b[7] = 20;
-        b[8] = prefix[0];
-        b[9] = prefix[1];
-        b[10] = prefix[2];
-        b[11] = prefix[3];
-        b[12] = prefix[4];
-        b[13] = prefix[5];
-        b[14] = prefix[6];
-        b[15] = prefix[7];
-        b[16] = prefix[8];
-        b[17] = prefix[9];
-        b[18] = prefix[10];
-        b[19] = prefix[11];
-        b[20] = 0x09;
-        b[21] = 0b11;
-        b[22] = 0;
-        b[23] = 0; // INFO_TS with the invalidate flag: no timestamp follows
-        b[24] = 0x07;
-        b[25] = 1;
-        b[26] = 28;
-        b[27] = 0; // HEARTBEAT (final / liveliness clear)
-        put4(&mut b, 28, kani::any());
-        put4(&mut b, 32, kani::any());
-        put_sn(&mut b, 36, first_sn);
-        put_sn(&mut b, 44, last_sn);
-        put4(&mut b, 52, count.to_le_bytes());
-        let m = match RtpsMessageRead::try_from(&b[..]) {
-            Ok(m) => m,
-            Err(_) => {
-                assert!(false, "C06: well-formed message rejected");
-                return;
-            }
-        };
-        assert!(m.submessages().len() == 2, "C06: two submessages parsed");
-        let mut mr = MessageReceiver::new(&m);
-        let mut yielded = 0;
-        while let Some(s) = mr.next() {
-            yielded += 1;
-            match s {
-                RtpsSubmessageReadKind::Heartbeat(h) => {
-                    assert!(h.first_sn() == first_sn && h.last_sn() == last_sn && h.count() == count, "C06: HEARTBEAT values");
+    let (sn, last_frag, count): (i64, u32, i32) = (kani::any(), kani::any(), kani::any());
+    let b = info_reply_datagram(&prefix, sn, last_frag, count);
+    match RtpsMessageRead::try_from(&b[..]) {
+        Ok(m) => {
+            assert!(m.submessages().len() == 2, "C06: INFO_REPLY and HEARTBEAT_FRAG parsed");
+            let mut mr = MessageReceiver::new(&m);
+            match mr.next() {
+                Some(RtpsSubmessageReadKind::HeartbeatFrag(h)) => {
+                    assert!(h._writer_sn() == sn && h._last_fragment_num() == last_frag && h.count() == count, "C06: HEARTBEAT_FRAG after INFO_REPLY carries its wire values");
                 }
-                _ => assert!(false, "C06: MessageReceiver yielded an interpreter submessage"),
+                _ => assert!(false, "C06: the submessage after INFO_REPLY is not dispatched"),
             }
+            assert!(mr.next().is_none(), "C06: nothing after the last submessage");
             assert!(mr.source_guid_prefix() == prefix, "C06: source prefix is the header's");
-            assert!(mr.source_timestamp().is_none(), "C06: timestamp present after INFO_TS(invalidate)");
+            kani::cover!(sn < 0 && count == i32::MAX, "extreme HEARTBEAT_FRAG values pass the dispatcher after an INFO_REPLY");
+            core::mem::forget(m);
         }
-        assert!(yielded == 1, "C06: exactly the HEARTBEAT is yielded");
-        kani::cover!(first_sn > last_sn && count < 0, "a HEARTBEAT with first > last and a negative count passes the dispatcher");
-        core::mem::forget(m);
+        Err(_) => assert!(false, "C06: well-formed message rejected"),
     }
+}
+
+// @check props=C06 tier=quick
+// @desc dispatcher on a well-formed message [INFO_TS, INFO_SRC] with symbolic timestamp, version, vendor and prefixes: parsed by the real parser and iterated by the real MessageReceiver until exhaustion: no panic, nothing is yielded, the receiver holds the INFO_SRC prefix and the INFO_TS timestamp
+// @bounds one 56-byte datagram, all value fields symbolic over their full domain; submessage ids / flags / lengths concrete; unwind 14
+// @enc rtps_messages::overall_structure::RtpsMessageRead::try_from
+// @enc rtps::message_receiver::MessageReceiver::next
+#[kani::proof]
+#[kani::unwind(14)]
+fn c06_receiver_dispatch_interpreter() {
+    let prefix: GuidPrefix = kani::any();
+    let (sec, frac): (u32, u32) = (kani::any(), kani::any());
     {
         let src: GuidPrefix = kani::any();
-        let (sec, frac): (u32, u32) = (kani::any(), kani::any());
-        let mut c = [0u8; 60];
-        c[0] = b'R';
-        c[1] = b'T';
-        c[2] = b'P';
-        c[3] = b'S';
-        c[4] = 2;
-        c[5] = 4;
-        c[6] = 1;
-        c[7] = 20;
-        c[8] = prefix[0];
-        c[9] = prefix[1];
-        c[10] = prefix[2];
-        c[11] = prefix[3];
-        c[12] = prefix[4];
-        c[13] = prefix[5];
-        c[14] = prefix[6];
-        c[15] = prefix[7];
-        c[16] = prefix[8];
-        c[17] = prefix[9];
-        c[18] = prefix[10];
-        c[19] = prefix[11];
-        c[20] = 0x09;
-        c[21] = 1;
-        c[22] = 8;
-        c[23] = 0; // INFO_TS
+        let mut c = [0u8; 56];
+        put_header(&mut c, &prefix);
+        put_sub(&mut c, 20, 0x09, 1, 8); // INFO_TS
         put4(&mut c, 24, sec.to_le_bytes());
         put4(&mut c, 28, frac.to_le_bytes());
-        c[32] = 0x0c;
-        c[33] = 1;
-        c[34] = 20;
-        c[35] = 0; // INFO_SRC: unused(4) version(2) vendor(2) prefix(12)
+        put_sub(&mut c, 32, 0x0c, 1, 20); // INFO_SRC: unused(4) version(2) vendor(2) prefix(12)
         c[40] = kani::any();
         c[41] = kani::any();
         c[42] = kani::any();
@@ -243,13 +163,9 @@ fn c06_receiver_dispatch__rest() {
             c[44 + i] = src[i];
             i += 1;
         }
-        c[56] = 0x01;
-        c[57] = 1;
-        c[58] = 0;
-        c[59] = 0; // PAD
         match RtpsMessageRead::try_from(&c[..]) {
             Ok(m) => {
-                assert!(m.submessages().len() == 3, "C06: three submessages parsed");
+                assert!(m.submessages().len() == 2, "C06: two submessages parsed");
                 let mut mr = MessageReceiver::new(&m);
                 assert!(mr.next().is_none(), "C06: interpreter submessages are not yielded");
                 assert!(mr.source_guid_prefix() == src, "C06: source prefix after INFO_SRC");
@@ -257,6 +173,58 @@ fn c06_receiver_dispatch__rest() {
                     Some(t) => assert!(t.seconds() == sec && t.fraction() == frac, "C06: timestamp after INFO_TS"),
                     None => assert!(false, "C06: timestamp lost"),
                 }
+                kani::cover!(sec == u32::MAX && src[0] != prefix[0], "a timestamp with seconds = u32::MAX and a different source prefix are recorded");
+                core::mem::forget(m);
+            }
+            Err(_) => assert!(false, "C06: well-formed message rejected"),
+        }
+    }
+}
+
+// @check props=C06 tier=thorough
+// @desc dispatcher on a well-formed message [INFO_TS, HEARTBEAT_FRAG]: exactly the HEARTBEAT_FRAG is yielded, with the INFO_TS timestamp and the header's prefix as source (60-byte datagram: ran out of memory in the quick configuration)
+// @bounds one 60-byte datagram; unwind 14
+// @enc rtps_messages::overall_structure::RtpsMessageRead::try_from
+// @enc rtps::message_receiver::MessageReceiver::next
+#[kani::proof]
+#[kani::unwind(14)]
+fn c06_receiver_dispatch_timestamp_entity() {
+    let prefix: GuidPrefix = kani::any();
+    let (sec, frac): (u32, u32) = (kani::any(), kani::any());
+    {
+        let (sn, last_frag, count): (i64, u32, i32) = (kani::any(), kani::any(), kani::any());
+        let mut b = [0u8; 60];
+        put_header(&mut b, &prefix);
+        put_sub(&mut b, 20, 0x09, 1, 8); // INFO_TS
+        put4(&mut b, 24, sec.to_le_bytes());
+        put4(&mut b, 28, frac.to_le_bytes());
+        put_sub(&mut b, 32, 0x13, 1, 24); // HEARTBEAT_FRAG
+        put4(&mut b, 36, kani::any());
+        put4(&mut b, 40, kani::any());
+        put_sn(&mut b, 44, sn);
+        put4(&mut b, 52, last_frag.to_le_bytes());
+        put4(&mut b, 56, count.to_le_bytes());
+        match RtpsMessageRead::try_from(&b[..]) {
+            Ok(m) => {
+                assert!(m.submessages().len() == 2, "C06: two submessages parsed");
+                let mut mr = MessageReceiver::new(&m);
+                let mut yielded = 0;
+                while let Some(s) = mr.next() {
+                    yielded += 1;
+                    match s {
+                        RtpsSubmessageReadKind::HeartbeatFrag(h) => {
+                            assert!(h._writer_sn() == sn && h._last_fragment_num() == last_frag && h.count() == count, "C06: HEARTBEAT_FRAG values");
+                        }
+                        _ => assert!(false, "C06: MessageReceiver yielded an interpreter submessage"),
+                    }
+                    assert!(mr.source_guid_prefix() == prefix, "C06: source prefix is the header's");
+                    match mr.source_timestamp() {
+                        Some(t) => assert!(t.seconds() == sec && t.fraction() == frac, "C06: timestamp after INFO_TS"),
+                        None => assert!(false, "C06: timestamp lost"),
+                    }
+                }
+                assert!(yielded == 1, "C06: exactly the HEARTBEAT_FRAG is yielded");
+                kani::cover!(sn == i64::MIN && count < 0, "extreme HEARTBEAT_FRAG values pass the dispatcher");
                 core::mem::forget(m);
             }
             Err(_) => assert!(false, "C06: well-formed message rejected"),
@@ -265,21 +233,31 @@ fn c06_receiver_dispatch__rest() {
 }
 
 // ------------------------------------------------------------------------------------------
-// 2. per-handler step on a real participant: GAP
+// 2. per-handler steps on a real participant
 // ------------------------------------------------------------------------------------------
 
-static GAP_STEPS: AtomicUsize = AtomicUsize::new(0);
-const GAP_STEP_BOUND: usize = 64;
-
-/// Stub for RtpsWriterProxy::irrelevant_change_set in the __known harness: counts the calls one
-/// datagram causes and asserts the termination bound (the real body is a 3-line max-update).
-fn counting_irrelevant_change_set(_p: &mut RtpsWriterProxy, _sn: SequenceNumber) {
-    let n = GAP_STEPS.fetch_add(1, Ordering::Relaxed) + 1;
-    assert!(n <= GAP_STEP_BOUND, "C06: one 52-byte GAP datagram makes the handler iterate more than 64 times (loop count = gapList.base - gapStart, attacker-chosen i64 values)");
+// @check props=C06 tier=quick
+// @desc the datagram [INFO_REPLY, HEARTBEAT_FRAG] handed to DcpsDomainParticipant::handle_data of a freshly constructed participant: no panic (formerly todo!()), the worker returns, nothing is sent
+// @bounds 56-byte datagram, symbolic prefix / ids / values; real participant; unwind 4 (+ per-loop bounds from the ptab entry: the handlers' loops over the 5 built-in readers 7, status-kind tables 14)
+// @assume critical_section::acquire/release stubbed (support_cs.rs)
+// @enc dcps::dcps_domain_participant::communication_methods::DcpsDomainParticipant::handle_data
+// @enc rtps::message_receiver::MessageReceiver::next
+#[kani::proof]
+#[kani::unwind(4)]
+#[kani::stub(critical_section::acquire, super::support_cs::cs_acquire)]
+#[kani::stub(critical_section::release, super::support_cs::cs_release)]
+fn c06_info_reply_handle_data() {
+    let prefix: GuidPrefix = kani::any();
+    let b = info_reply_datagram(&prefix, kani::any(), kani::any(), kani::any());
+    let cap = sp::Capture::new();
+    let mut p = sp::participant(&cap, 0);
+    p.handle_data(&b[..], &rt());
+    assert!(cap.count() == 0, "C06: INFO_REPLY / HEARTBEAT_FRAG from an unknown participant make a fresh participant send something");
+    kani::cover!(prefix[0] == 0x41, "the datagram is processed to the end");
+    core::mem::forget(p);
 }
 
-/// A participant whose built-in publications reader is matched with writer (W_PREFIX, W_ID), and a
-/// 52-byte datagram from W_PREFIX carrying GAP(gap_start, base, numBits = 0).
+/// 52-byte datagram from W_PREFIX carrying GAP(gap_start, base, numBits = 0) of writer W_ID.
 fn gap_datagram(gap_start: i64, base: i64) -> [u8; 52] {
     let mut b = [0u8; 52];
     put_header(&mut b, &W_PREFIX);
@@ -292,45 +270,20 @@ fn gap_datagram(gap_start: i64, base: i64) -> [u8; 52] {
     b
 }
 
-// @check props=C06 tier=thorough timeout=1800 known=KF-C06-2
-// @desc KNOWN DEFECT (hang): handle_gap_submessage runs `for seq_num in gap_start..gap_list.base()` over attacker-chosen i64 values; one 52-byte GAP from a matched (discovered) writer with base - gap_start > 64 makes the handler call irrelevant_change_set more than 64 times (up to 2^63: the single worker never returns)
-// @bounds real participant, built-in publications reader matched with one writer proxy; GAP gap_start / base symbolic with base - gap_start > 64, empty bitmap; unwind 70; the loop body (RtpsWriterProxy::irrelevant_change_set) is replaced by a counting stub asserting the bound
-// @assume trigger: gapList.base - gapStart > 64 and the GAP's writer GUID is matched by a reader
-// @assume stub: RtpsWriterProxy::irrelevant_change_set replaced by a call counter asserting <= 64 calls; critical_section::acquire/release stubbed
-// @enc dcps::dcps_domain_participant::communication_methods::DcpsDomainParticipant::handle_data
-// @enc dcps::dcps_domain_participant::communication_methods::DcpsDomainParticipant::handle_gap_submessage
-#[kani::proof]
-#[kani::unwind(70)]
-#[kani::stub(critical_section::acquire, super::support_cs::cs_acquire)]
-#[kani::stub(critical_section::release, super::support_cs::cs_release)]
-#[kani::stub(crate::rtps::writer_proxy::RtpsWriterProxy::irrelevant_change_set, counting_irrelevant_change_set)]
-fn c06_gap_range_loop__known() {
-    let gap_start: i64 = kani::any();
-    let base: i64 = kani::any();
-    kani::assume((base as i128) - (gap_start as i128) > GAP_STEP_BOUND as i128);
-    let b = gap_datagram(gap_start, base);
-    let cap = sp::Capture::new();
-    let mut p = sp::participant(&cap, 0);
-    p.domain_participant.builtin_subscriber.dcps_publication_reader.transport_reader.add_matched_writer(&writer_proxy());
-    p.handle_data(&b[..], &rt());
-    core::mem::forget(p);
-}
-
-// @check props=C06 tier=thorough timeout=1800 unwind_violation=1
-// @desc GAP from a matched writer outside the recorded trigger (base - gap_start <= 8, any sign): handle_data returns without panic within the unwinding bound; afterwards the proxy's available_changes_max covers the gap when it starts at the next expected sequence number
-// @bounds real participant, one matched writer proxy; gap_start / base symbolic over i64 with base - gap_start <= 8 (negative = empty range), empty bitmap; unwind 30 (an unwinding failure = termination bound exceeded)
-// @assume NOT trigger KF-C06-2: gapList.base - gapStart <= 8
+// @check props=C06 tier=quick unwind_violation=1
+// @desc GAP from a matched (discovered) writer with ARBITRARY i64 gapStart and gapList.base - including ranges of 2^63 sequence numbers (formerly one loop iteration per sequence number, repaired in /repo with RtpsWriterProxy::irrelevant_change_range): handle_data returns without panic within the unwinding bound; the proxy skips the range exactly when it starts at or before the next expected sequence number and ends after it
+// @bounds real participant whose built-in publications reader has one matched writer proxy in its initial state; one 52-byte GAP, gapStart / base symbolic over the full i64 range, empty bitmap; unwind 4, handler loops over the 5 built-in readers 7 (an unwinding failure = loop count controlled by the datagram)
 // @assume critical_section::acquire/release stubbed (support_cs.rs)
 // @enc dcps::dcps_domain_participant::communication_methods::DcpsDomainParticipant::handle_data
-// @enc rtps::writer_proxy::RtpsWriterProxy::irrelevant_change_set
+// @enc dcps::dcps_domain_participant::communication_methods::DcpsDomainParticipant::handle_gap_submessage
+// @enc rtps::writer_proxy::RtpsWriterProxy::irrelevant_change_range
 #[kani::proof]
-#[kani::unwind(30)]
+#[kani::unwind(4)]
 #[kani::stub(critical_section::acquire, super::support_cs::cs_acquire)]
 #[kani::stub(critical_section::release, super::support_cs::cs_release)]
-fn c06_gap_range_loop__rest() {
+fn c06_gap_range_handle_data() {
     let gap_start: i64 = kani::any();
     let base: i64 = kani::any();
-    kani::assume((base as i128) - (gap_start as i128) <= 8);
     let b = gap_datagram(gap_start, base);
     let cap = sp::Capture::new();
     let mut p = sp::participant(&cap, 0);
@@ -339,80 +292,51 @@ fn c06_gap_range_loop__rest() {
     let wp = p.domain_participant.builtin_subscriber.dcps_publication_reader.transport_reader.matched_writer_lookup(Guid::new(W_PREFIX, W_ID));
     match wp {
         Some(wp) => {
-            if gap_start == 1 && base > 1 {
-                assert!(wp.available_changes_max() == base - 1, "C06: GAP [1, base) not applied");
-            }
-            kani::cover!(gap_start == 1 && base == 9, "an 8-element gap is applied");
-            kani::cover!(base < gap_start, "a GAP with base < gap_start is ignored");
+            let skipped = gap_start <= 1 && base > 1;
+            assert!(wp.available_changes_max() == if skipped { base - 1 } else { 0 }, "C06: GAP range applied wrongly");
+            kani::cover!(gap_start == i64::MIN && base == i64::MAX, "a GAP over the whole sequence number range is handled in one step");
+            kani::cover!(base < gap_start, "a GAP with base < gapStart is ignored");
         }
         None => assert!(false, "C06: matched writer proxy disappeared"),
     }
     core::mem::forget(p);
 }
 
-// @check props=C06 tier=quick known=KF-C06-4
-// @desc KNOWN DEFECT (builds with overflow checks): SequenceNumberSet::set() - used by the GAP and ACKNACK handlers - computes `base + delta_n as i64`; a set decoded from the wire with a base near i64::MAX and a set bit overflows
-// @bounds 16 wire bytes: bitmapBase = i64::MAX, numBits = 2, bitmap word symbolic with bit 1 set; both endiannesses; unwind 5
-// @assume trigger: base + (offset of a set bit) > i64::MAX
-// @enc rtps_messages::submessage_elements::SequenceNumberSet::try_read_from_bytes
-// @enc rtps_messages::submessage_elements::SequenceNumberSet::set
-#[kani::proof]
-#[kani::unwind(5)]
-fn c06_sequence_number_set_iter_overflow__known() {
-    let le: bool = kani::any();
-    let word: u32 = kani::any();
-    kani::assume(word & 0x4000_0000 != 0);
-    let mut b = [0u8; 16];
-    if le {
-        put4(&mut b, 0, i32::MAX.to_le_bytes());
-        put4(&mut b, 4, u32::MAX.to_le_bytes());
-        put4(&mut b, 8, 2u32.to_le_bytes());
-        put4(&mut b, 12, word.to_le_bytes());
-    } else {
-        put4(&mut b, 0, i32::MAX.to_be_bytes());
-        put4(&mut b, 4, u32::MAX.to_be_bytes());
-        put4(&mut b, 8, 2u32.to_be_bytes());
-        put4(&mut b, 12, word.to_be_bytes());
-    }
-    let e = if le { Endianness::LittleEndian } else { Endianness::BigEndian };
-    let mut d = &b[..];
-    if let Ok(s) = SequenceNumberSet::try_read_from_bytes(&mut d, &e) {
-        assert!(s.base() == i64::MAX, "C06: harness image");
-        let n = s.set().count();
-        assert!(n <= 2, "C06: more members than numBits");
-    }
-}
+// ------------------------------------------------------------------------------------------
+// 3. number ranges and fragment arithmetic
+// ------------------------------------------------------------------------------------------
 
 // @check props=C06 tier=quick
-// @desc SequenceNumberSet::set() outside the recorded trigger: a set decoded from arbitrary wire bytes with base <= i64::MAX - 256 yields at most numBits members, each in [base, base + numBits), without panic
-// @bounds 16 symbolic wire bytes, numBits <= 8 (the iterator's inner skip loop nested in the consumer's loop: 32 bits did not finish in 900 s), both endiannesses; unwind 10
-// @assume NOT trigger KF-C06-4: base <= i64::MAX - 256; numBits <= 8
+// @desc SequenceNumberSet decoded from arbitrary wire bytes: the decoder rejects sets whose last member would exceed i64::MAX (formerly set() overflowed, repaired in /repo), and set() on every accepted set yields at most numBits members, each in [base, base + numBits), without panic
+// @bounds 16 symbolic wire bytes, numBits <= 8 for the iteration (the iterator's inner skip loop nested in the consumer's loop: 32 bits did not finish in 900 s), any base, both endiannesses; unwind 10
+// @assume numBits <= 8 when the set is iterated (the rejection is asserted for every numBits)
 // @enc rtps_messages::submessage_elements::SequenceNumberSet::try_read_from_bytes
 // @enc rtps_messages::submessage_elements::SequenceNumberSet::set
 #[kani::proof]
 #[kani::unwind(10)]
-fn c06_sequence_number_set_iter__rest() {
+fn c06_sequence_number_set_iteration() {
     let le: bool = kani::any();
     let b: [u8; 16] = kani::any();
     let e = if le { Endianness::LittleEndian } else { Endianness::BigEndian };
+    let nb = if le { u32::from_le_bytes([b[8], b[9], b[10], b[11]]) } else { u32::from_be_bytes([b[8], b[9], b[10], b[11]]) };
     let mut d = &b[..];
-    if let Ok(s) = SequenceNumberSet::try_read_from_bytes(&mut d, &e) {
-        kani::assume(s.base() <= i64::MAX - 256);
-        let nb = if le { u32::from_le_bytes([b[8], b[9], b[10], b[11]]) } else { u32::from_be_bytes([b[8], b[9], b[10], b[11]]) };
-        kani::assume(nb <= 8);
-        let mut n = 0usize;
-        for x in s.set() {
-            assert!(x >= s.base() && x - s.base() < 8, "C06: member outside [base, base + numBits)");
-            n += 1;
+    match SequenceNumberSet::try_read_from_bytes(&mut d, &e) {
+        Ok(s) => {
+            assert!(nb == 0 || s.base().checked_add(nb as i64 - 1).is_some(), "C06: SequenceNumberSet whose last member exceeds i64::MAX accepted");
+            kani::assume(nb <= 8);
+            let mut n = 0usize;
+            for x in s.set() {
+                assert!(x >= s.base() && x - s.base() < 8, "C06: member outside [base, base + numBits)");
+                n += 1;
+            }
+            assert!(n <= 8, "C06: more members than numBits");
+            kani::cover!(n == 8 && s.base() == i64::MAX - 7, "a full 8-bit set ending at i64::MAX is iterated");
         }
-        assert!(n <= 8, "C06: more members than numBits");
-        kani::cover!(n == 8 && s.base() < 0, "a full 8-bit set with a negative base is iterated");
+        Err(_) => {
+            kani::cover!(nb == 2 && b[0] == 0xff && b[1] == 0xff, "a set reaching beyond i64::MAX is rejected");
+        }
     }
 }
-
-// ------------------------------------------------------------------------------------------
-// 3. fragment arithmetic
-// ------------------------------------------------------------------------------------------
 
 fn proxy() -> RtpsWriterProxy {
     RtpsWriterProxy::new(Guid::new(W_PREFIX, W_ID), &[], &[], ENTITYID_UNKNOWN, ReliabilityKind::Reliable)
@@ -436,35 +360,46 @@ fn any_frag(sn: i64, start: u32, n: u16, fsize: u16, dsize: u32) -> DataFragSubm
     )
 }
 
-// @check props=C06 tier=quick known=KF-C06-3
-// @desc KNOWN DEFECT: a DATA_FRAG with fragmentSize = 0 buffered in a writer proxy (RtpsStatefulReader::on_data_frag_submessage does push_data_frag + reconstruct_data_from_frag for the expected sequence number of a matched writer) makes total_fragments_expected compute `data_size / fragment_size`: division by zero, panic in every build profile
-// @bounds writer proxy in its initial state; one DATA_FRAG: writer_sn symbolic, fragment_size = 0, fragmentStartingNum / fragmentsInSubmessage / dataSize symbolic, 2-byte payload; unwind 3
-// @assume trigger: fragment_size == 0 and the fragment is buffered (writer GUID matched, writer_sn expected)
-// @enc rtps::writer_proxy::RtpsWriterProxy::push_data_frag
-// @enc rtps::writer_proxy::RtpsWriterProxy::reconstruct_data_from_frag
-// @enc rtps::writer_proxy::total_fragments_expected
+// @check props=C06 tier=quick
+// @desc a DATA_FRAG submessage with fragmentSize = 0 never reaches the reassembly arithmetic: the real decoder rejects it (formerly accepted and divided by zero in total_fragments_expected, repaired in /repo), for both endiannesses and arbitrary other fields
+// @bounds 36-byte DATA_FRAG body (32 fixed + 4 payload), inline-QoS flag clear, octetsToInlineQos 28, fragmentSize 0, everything else symbolic; submessage_length 0 (to end of buffer); unwind 4
+// @enc rtps_messages::submessages::data_frag::DataFragSubmessage::try_from_bytes
 #[kani::proof]
-#[kani::unwind(3)]
-fn c06_data_frag_zero_fragment_size__known() {
-    let mut p = proxy();
-    let sn: i64 = kani::any();
-    let f = any_frag(sn, kani::any(), kani::any(), 0, kani::any());
-    p.push_data_frag(f);
-    let r = p.reconstruct_data_from_frag(sn);
-    core::mem::forget(r);
-    core::mem::forget(p);
+#[kani::unwind(4)]
+fn c06_data_frag_zero_fragment_size_rejected() {
+    for flags in [0b0001u8, 0b0100] {
+        let le = flags & 1 == 1;
+        let hb = [0x16u8, flags, 0, 0];
+        let mut hs = &hb[..];
+        let h = match SubmessageHeaderRead::try_read_from_bytes(&mut hs) {
+            Ok(h) => h,
+            Err(_) => {
+                assert!(false, "C06: harness header");
+                return;
+            }
+        };
+        let mut b: [u8; 36] = kani::any();
+        b[2] = if le { 28 } else { 0 };
+        b[3] = if le { 0 } else { 28 };
+        b[26] = 0;
+        b[27] = 0;
+        let r = DataFragSubmessage::try_from_bytes(&h, &b[..]);
+        assert!(r.is_err(), "C06: DATA_FRAG with fragmentSize 0 accepted");
+        kani::cover!(r.is_err() && !le, "the big-endian image is rejected");
+        core::mem::forget(r);
+    }
 }
 
 // @check props=C06 tier=quick unwind_violation=1
-// @desc DATA_FRAG buffered in a writer proxy outside the recorded trigger (fragment_size >= 1): any writer_sn (i64), fragmentStartingNum / dataSize (u32), fragmentSize (u16 >= 1), fragmentsInSubmessage <= 1: push_data_frag + reconstruct_data_from_frag return without panic (no overflow in total_fragments_expected, no division by zero) within the unwinding bound; a DATA is reconstructed only when the fragment starts at 1 and (for one fragment) dataSize <= fragmentSize, with the fragment's payload
+// @desc DATA_FRAG buffered in a writer proxy (the two calls RtpsStatefulReader::on_data_frag_submessage makes for an accepted fragment): any writer_sn (i64), fragmentStartingNum / dataSize (u32), fragmentSize (u16 >= 1, the decoder's invariant), fragmentsInSubmessage <= 1: push_data_frag + reconstruct_data_from_frag return without panic (no overflow in total_fragments_expected, no division by zero) within the unwinding bound; a DATA is reconstructed only when the fragment starts at 1 and (for one fragment) dataSize <= fragmentSize, with the fragment's payload
 // @bounds writer proxy in its initial state, one DATA_FRAG with a 2-byte payload; fragmentsInSubmessage <= 1 (the reassembly loop runs fragmentsInSubmessage + 1 times when the fragment count matches); unwind 4
-// @assume NOT trigger KF-C06-3: fragment_size != 0; fragmentsInSubmessage <= 1
+// @assume fragment_size != 0: invariant of every DataFragSubmessage the decoder yields (asserted by c06_data_frag_zero_fragment_size_rejected and the C07 DATA_FRAG obligations); fragmentsInSubmessage <= 1
 // @enc rtps::writer_proxy::RtpsWriterProxy::push_data_frag
 // @enc rtps::writer_proxy::RtpsWriterProxy::reconstruct_data_from_frag
 // @enc rtps::writer_proxy::total_fragments_expected
 #[kani::proof]
 #[kani::unwind(4)]
-fn c06_data_frag_arithmetic__rest() {
+fn c06_data_frag_arithmetic() {
     let mut p = proxy();
     let sn: i64 = kani::any();
     let fsize: u16 = kani::any();
